@@ -1,4 +1,5 @@
 import CV.Proofs.ChainExample
+import CV.Proofs.ChainBits
 /-!
 # C14 — Chain coder decoding is local: symbol `i` depends only on chunk `i` and model `i`
 
@@ -93,6 +94,154 @@ theorem change_data {c : Cfg} (hc : c.Valid) (ms : List (Model Sym)) (x x' : Cod
   obtain ⟨h1, h2, h3⟩ := locality_compare hv ms ms x x' hms hms hx hx' rfl hlen
   exact ⟨h1, h2, fun i hq => h3 i rfl hq⟩
 
+/-! ## literal form: which bits of the data make up chunk `i`
+
+`Pos`, `bitOf`, `valOf`, `chunkPosV` are defined in `CV/Proofs/ChainBits.lean` on lists of bit
+positions only (no coder arithmetic, no model, no remainders): `Pos.word i b` is bit `b` of the
+`i`-th word of the compressed stack from the top, `Pos.head b` a leftover bit of the head below
+its marker bit; `chunkPosV W Ps L idx m` lists the positions of the successive chunks, most
+significant bit first, for per-symbol precisions `Ps`.  The bit string is *not* cut into
+consecutive groups: the low `P` bits of a freshly read word are used first, its upper `W - P`
+bits are kept below older leftover bits and used up in groups of `P` from the low end, a group
+straddling into the older leftover bits when they run short. -/
+
+/-- the chunk positions for `n` symbols at the coder's constant precision, for a coder with `k`
+    leftover bits in its head and `m` words on the compressed stack -/
+def chunkPos (c : Cfg) (n k m : Nat) : List (List Pos) :=
+  chunkPosV c.W (List.replicate n c.P) (headPos k) 0 m
+
+/-- **`symbol_i`, literally**: the `i`-th decoded symbol is what the `i`-th model assigns to the
+    number spelled by the data bits at the positions `chunkPos …[i]`; the coder reports
+    `OutOfCompressedData` exactly when there are fewer position lists than models. -/
+theorem symbol_i_literal {c : Cfg} (hc : c.Valid) (ms : List (Model Sym)) (x : Coder)
+    (hms : ∀ m ∈ ms, m.WellFormed c.P) (hx : Inv c x) {k : Nat}
+    (hlo : 2^k ≤ x.heads.compressed) (hhi : x.heads.compressed < 2^(k + 1)) :
+    (∀ i : Nat, (decodeSymbols c ms x).1[i]? =
+      match (chunkPos c ms.length k x.compressed.length)[i]?, ms[i]? with
+      | some ps, some m => some (m.dec (valOf (bitOf x.heads.compressed x.compressed) ps)).1
+      | _, _ => none) ∧
+    ((decodeSymbols c ms x).2.2 = none ↔
+      (chunkPos c ms.length k x.compressed.length).length = ms.length) := by
+  have hv := CValid.of_valid hc
+  have hq := quantiles_eq_chunks hv hlo hhi hx.1.2.1 hx.2.1 ms.length
+  refine ⟨fun i => ?_, ?_⟩
+  · rw [locality_get hv ms x hms hx i, hq, List.getElem?_map]
+    unfold chunkPos
+    cases (chunkPosV c.W (List.replicate ms.length c.P) (headPos k) 0 x.compressed.length)[i]? <;>
+      cases ms[i]? <;> rfl
+  · rw [(CV.Chain.locality hv ms x hms hx).2.1, hq]
+    simp [chunkPos]
+
+/-- **Structure of the chunks**: chunk `i` consists of exactly `P` bit positions, each of them
+    a real bit of the data (a leftover bit of the head or bit `t < W` of one of the words on the
+    stack), none occurring twice, and no data bit belongs to two chunks. -/
+theorem chunk_structure {c : Cfg} (hc : c.Valid) (n k m : Nat) :
+    (∀ (i : Nat) (ps : List Pos), (chunkPos c n k m)[i]? = some ps → ps.length = c.P ∧ ps.Nodup ∧
+      ∀ q ∈ ps, (∃ b, q = .head b ∧ b < k) ∨ ∃ j t, q = .word j t ∧ j < m ∧ t < c.W) ∧
+    (∀ (i j : Nat) (a b : List Pos), i ≠ j → (chunkPos c n k m)[i]? = some a →
+      (chunkPos c n k m)[j]? = some b → ∀ q ∈ a, q ∉ b) := by
+  have hPs : ∀ P ∈ List.replicate n c.P, P ≤ c.W := by
+    intro P hP
+    obtain ⟨_, rfl⟩ := List.mem_replicate.mp hP
+    obtain ⟨_, b, d, _⟩ := hc; omega
+  refine ⟨?_, ?_⟩
+  · intro i ps hps
+    have hmem : ps ∈ chunkPos c n k m := List.mem_of_getElem? hps
+    refine ⟨?_, (chunkPosV_pairwise c.W _ _ 0 m hPs (headPos_ok k 0).1 (headPos_ok k 0).2).2 ps hmem, ?_⟩
+    · have := chunkPosV_length c.W _ _ 0 m hPs i ps hps
+      rw [List.getElem?_replicate] at this
+      split at this
+      · injection this with h; exact h.symm
+      · cases this
+    · intro q hq
+      rcases chunkPosV_valid c.W _ _ 0 m hPs ps hmem q hq with h | ⟨j, t, rfl, _, h2, h3⟩
+      · obtain ⟨t, ht, rfl⟩ := mem_seg.mp h
+        exact Or.inl ⟨0 + t, rfl, by omega⟩
+      · exact Or.inr ⟨j, t, rfl, by omega, h3⟩
+  · intro i j a b hij ha hb
+    exact chunkPosV_disjoint hPs (headPos_ok k 0).1 (headPos_ok k 0).2 hij ha hb
+
+/-- **Flipping bits inside chunk `j`**: two coders with the same amount of data (same number
+    of leftover bits `k` in the head, equally many words on the stack) whose data agree on
+    every bit position outside `chunkPos …[j]` decode – with the same models – the same symbols
+    at every position `i ≠ j`, equally many of them, and report the same error (or none): at
+    most symbol `j` changes and never whether or when the coder runs out of data. -/
+theorem flip_bits_in_chunk {c : Cfg} (hc : c.Valid) (ms : List (Model Sym)) (x x' : Coder)
+    (hms : ∀ m ∈ ms, m.WellFormed c.P) (hx : Inv c x) (hx' : Inv c x') {k : Nat}
+    (hlo : 2^k ≤ x.heads.compressed) (hhi : x.heads.compressed < 2^(k + 1))
+    (hlo' : 2^k ≤ x'.heads.compressed) (hhi' : x'.heads.compressed < 2^(k + 1))
+    (hlen : x.compressed.length = x'.compressed.length) (j : Nat)
+    (hsame : ∀ q, q ∉ ((chunkPos c ms.length k x.compressed.length)[j]?).getD [] →
+      bitOf x.heads.compressed x.compressed q = bitOf x'.heads.compressed x'.compressed q) :
+    (decodeSymbols c ms x).1.length = (decodeSymbols c ms x').1.length ∧
+    (decodeSymbols c ms x).2.2 = (decodeSymbols c ms x').2.2 ∧
+    ∀ i : Nat, i ≠ j → (decodeSymbols c ms x).1[i]? = (decodeSymbols c ms x').1[i]? := by
+  have hv := CValid.of_valid hc
+  obtain ⟨hql, hqi⟩ := quantiles_flip hv hlo hhi hx.1.2.1 hx.2.1 hlo' hhi' hx'.1.2.1 hx'.2.1 hlen
+    ms.length j hsame
+  obtain ⟨h1, h2, h3⟩ := locality_compare hv ms ms x x' hms hms hx hx' rfl hql
+  exact ⟨h1, h2, fun i hij => h3 i rfl (hqi i hij)⟩
+
+/-- A coder fresh from `from_binary` / `from_compressed` has an empty bit buffer (`k = 0`: all
+    chunk positions are bits of words) and its compressed stack is the bottom part of the
+    data: the words on top of it (`D`) went into the remainders head (for `from_compressed`
+    data the topmost of them carries the marker bit, for `from_binary` data a leading 1 is
+    supplied by the coder). -/
+theorem fresh_coder_data {c : Cfg} (hc : c.Valid) (data : List Nat) (hd : Words c.W data) (x : Coder)
+    (h : fromBinary c data = some x ∨ fromCompressed c data = some x) :
+    Inv c x ∧ 2^0 ≤ x.heads.compressed ∧ x.heads.compressed < 2^(0 + 1) ∧
+    ∃ D, data = D ++ x.compressed := by
+  have hP := (CValid.of_valid hc).precOk
+  rcases h with h | h
+  · obtain ⟨hI, _, D, hD, hfin⟩ := fromBinary_spec hP hd h
+    have h1 : x.heads.compressed = 1 := by
+      by_cases h1 : x.heads.compressed = 1
+      · exact h1
+      · have := hfin [] []; simp [intoBinary, h1] at this
+    exact ⟨hI, by rw [h1]; decide, by rw [h1]; decide, D, hD⟩
+  · obtain ⟨hI, _, D, hD, hfin⟩ := fromCompressed_spec hP hd h
+    have h1 : x.heads.compressed = 1 := by
+      by_cases h1 : x.heads.compressed = 1
+      · exact h1
+      · have := hfin [] []; simp [intoCompressed, h1] at this
+    exact ⟨hI, by rw [h1]; decide, by rw [h1]; decide, D, hD⟩
+
+/-- **Per-symbol precision.**  For a schedule of decode steps and `change_precision` calls that
+    runs to completion, the decoded symbols are
+    `zipWith (fun q m => m.dec q).1 chunks models`, where the chunks are the numbers spelled by
+    the data bits at the positions `chunkPosV W Ps …` for the per-symbol precisions `Ps` –
+    the same bit-position machine, now taking `Ps[i]` bits for chunk `i`.  Neither the
+    remainders side nor the precision changes enter. -/
+theorem locality_schedule_literal {c : Cfg} (hc : c.Valid) (steps : List (Step Sym)) (x : Coder)
+    (hs : StepsOk c steps) (hx : Inv c x) {k : Nat}
+    (hlo : 2^k ≤ x.heads.compressed) (hhi : x.heads.compressed < 2^(k + 1))
+    {log : List (Done Sym)} {c' : Cfg} {y : Coder} (hrun : runDec c steps x = some (log, c', y)) :
+    logSyms log = List.zipWith (fun q m => (m.dec q).1)
+      ((chunkPosV c.W (decPrecs c.P steps) (headPos k) 0 x.compressed.length).map
+        (valOf (bitOf x.heads.compressed x.compressed)))
+      (decModels steps) := by
+  have hP := (CValid.of_valid hc).precOk
+  obtain ⟨h1, _⟩ := CV.Chain.locality_schedule steps c x hP hs hx log c' y hrun
+  have hval : x.heads.compressed = 2^(headPos k).length +
+      valOf (bitOf x.heads.compressed x.compressed) (headPos k) := by
+    have hf : ∀ b, bitOf x.heads.compressed x.compressed (.head b) = x.heads.compressed / 2^b % 2 :=
+      fun b => rfl
+    rw [headPos, seg_length, valOf_seg hf 0 k]
+    simp only [Nat.pow_zero, Nat.div_one]
+    rw [Nat.pow_succ] at hhi
+    have := Nat.div_add_mod x.heads.compressed (2^k)
+    have hd : x.heads.compressed / 2^k = 1 := by
+      apply Nat.div_eq_of_lt_le
+      · rw [Nat.one_mul]; exact hlo
+      · omega
+    rw [hd] at this
+    omega
+  have := quantilesV_eq_chunks x.heads.compressed x.compressed hx.2.1 (decPrecs c.P steps)
+    (headPos k) 0 x.heads.compressed (decPrecs_ok steps c hs) hval hx.1.2.1
+  rw [h1]
+  simp only [List.drop_zero, Nat.sub_zero] at this
+  rw [this]
+
 /-- For `PRECISION == Word::BITS` the chunks are the words of the compressed stack themselves,
     so "bits inside chunk `j`" are literally the bits of word `j`. -/
 theorem chunks_word_aligned {c : Cfg} (hc : c.Valid) (hPW : c.P = c.W) (n hc' : Nat)
@@ -121,6 +270,17 @@ example : exCfg.Valid ∧ Inv exCfg exCoder ∧
 example : quantiles exCfg 8 exCoder.heads.compressed exCoder.compressed = [0, 2, 2, 0, 0, 0] := by
   decide
 
+/-- the chunk positions of the example coder (`W = 8`, `P = 3`, 3 leftover bits in the head, two
+    words): chunk 0 is the head's three leftover bits, chunk 1 the low three bits of word 0,
+    chunk 2 its bits 5…3, then word 1 is read; chunk 4 straddles: two old bits of word 0
+    followed by … – and the data at these positions spell the chunks `[0, 2, 2, 0, 0, 0]` -/
+example : chunkPos exCfg 8 3 2 =
+    [[.head 2, .head 1, .head 0], [.word 0 2, .word 0 1, .word 0 0],
+     [.word 0 5, .word 0 4, .word 0 3], [.word 1 2, .word 1 1, .word 1 0],
+     [.word 1 5, .word 1 4, .word 1 3], [.word 0 6, .word 1 7, .word 1 6]] := by decide
+
+example : 2^3 ≤ exCoder.heads.compressed ∧ exCoder.heads.compressed < 2^(3 + 1) := by decide
+
 end CV.Chain.C14
 
 #print axioms CV.Chain.C14.locality
@@ -128,5 +288,10 @@ end CV.Chain.C14
 #print axioms CV.Chain.C14.replace_model
 #print axioms CV.Chain.C14.change_chunk
 #print axioms CV.Chain.C14.change_data
+#print axioms CV.Chain.C14.symbol_i_literal
+#print axioms CV.Chain.C14.chunk_structure
+#print axioms CV.Chain.C14.flip_bits_in_chunk
+#print axioms CV.Chain.C14.fresh_coder_data
+#print axioms CV.Chain.C14.locality_schedule_literal
 #print axioms CV.Chain.C14.chunks_word_aligned
 #print axioms CV.Chain.C14.chunks_bounded
